@@ -238,6 +238,12 @@ func (r *run) violate(oracle, msg string) {
 		}
 	}
 	r.res.Violations = append(r.res.Violations, core.Violation{Oracle: oracle, Property: prop, Message: msg})
+	// C14 promises that a contained failure disturbs nothing else: any divergence from the model
+	// in a run into which a fault was injected is therefore also a C14 matter.
+	if len(r.faults) > 0 && prop != "C14" && prop != "C15" && oracle != "C14.disturbed-after-fault" {
+		f := r.faults[0]
+		r.violate("C14.disturbed-after-fault", fmt.Sprintf("after the %s injected at event %d (%s of %s) the run diverges from the model: %s: %s", f.kind, f.seq, f.phase, f.rule, oracle, msg))
+	}
 }
 
 func (r *run) logf(format string, a ...interface{}) {
